@@ -120,6 +120,259 @@ Section RepairMap.
 End RepairMap.
 
 (* ---------------------------------------------------------------------------------------------------------- *)
+(* repair verifies what it accepts: a bad entry with a recorded hash that is not marked passes the hash test     *)
+(* ---------------------------------------------------------------------------------------------------------- *)
+Section RepairVerified.
+  Variable hashf : bid -> N -> hval.
+  Variable padz : bid -> N -> bool.
+  Variable bs : N.
+  Variable nlev : nat.
+
+  (* the block x hashes, over the length of the block of the entry, to the recorded hash of the entry *)
+  Definition hash_passes (e : fent) (x : bid) : bool := hval_eqb (hashf x (fe_len bs e)) (fe_hash e).
+  Lemma blockcmp_hash e x : blockcmp hashf padz bs (fe_hash e) (fe_len bs e) x = true -> hash_passes e x = true.
+  Proof. unfold blockcmp, hash_passes. intro H. apply andb_true_iff in H. tauto. Qed.
+
+  Lemma hash_matching_entries fm b :
+    hash_matching hashf padz bs fm b = true ->
+    forall e, In e fm -> fe_ood e = false -> fe_updated_hash e = true -> blockcmp hashf padz bs (fe_hash e) (fe_len bs e) (vnth b (fe_idx e)) = true.
+  Proof.
+    unfold hash_matching. intro H. apply andb_true_iff in H. destruct H as [_ H]. rewrite forallb_forall in H.
+    intros e He Ho Hu. specialize (H e He). rewrite Ho, Hu in H. exact H.
+  Qed.
+  Lemma no_hash_entries fm : has_hash fm = false -> forall e, In e fm -> fe_ood e = false -> fe_updated_hash e = true -> False.
+  Proof.
+    unfold has_hash. intros H e He Ho Hu.
+    assert (X : existsb (fun e => negb (fe_ood e) && fe_updated_hash e) fm = true) by (apply existsb_exists; exists e; rewrite Ho, Hu; auto).
+    congruence.
+  Qed.
+
+  Lemma try_combos_accept pos wh F fm rec : forall cs buf jn err tags buf' jn' err' tags',
+    try_combos hashf padz bs pos wh F fm rec cs buf jn err tags = (true, buf', jn', err', tags') ->
+    length buf' = length buf /\ (forall i, ~ In i F -> vnth buf' i = vnth buf i) /\ (wh = true -> hash_matching hashf padz bs fm buf' = true).
+  Proof.
+    induction cs as [|ip rest IH]; intros buf jn err tags b' j' e' t'; cbn [try_combos]; [intro H; discriminate H|].
+    destruct (existsb (fun l => is_pnone (nth l rec PNone)) ip); [apply IH|].
+    match goal with |- context [reconstruct ?x F ?u buf jn] =>
+      pose proof (reconstruct_length x F u buf jn) as Hlen;
+      pose proof (fun i => reconstruct_outside x F u buf jn i) as Hout;
+      destruct (reconstruct x F u buf jn) as [b1 j1] end.
+    cbn [fst] in Hlen, Hout.
+    match goal with |- context [if ?ok then (true, b1, j1, err, tags) else _] => destruct ok eqn:Eok end.
+    - intro H. injection H as H1 H2 H3 H4. subst. split; [exact Hlen|]. split; [exact Hout|]. intro Hw. subst wh. exact Eok.
+    - intro H. destruct (IH _ _ _ _ _ _ _ _ H) as [A [B C]]. split; [congruence|].
+      split; [intros i Hi; rewrite (B i Hi); apply Hout; exact Hi | exact C].
+  Qed.
+
+  Lemma repair_step_accept pos fm rec buf jn buf' jn' tags :
+    repair_step hashf padz bs nlev pos fm rec buf jn = (ROk, buf', jn', tags) ->
+    length buf' = length buf /\ (forall i, ~ In i (map fe_idx fm) -> vnth buf' i = vnth buf i)
+    /\ (forall e, In e fm -> fe_ood e = false -> fe_updated_hash e = true ->
+                  blockcmp hashf padz bs (fe_hash e) (fe_len bs e) (vnth buf' (fe_idx e)) = true).
+  Proof.
+    unfold repair_step. destruct (Nat.eqb (length fm) 0) eqn:E0.
+    { intro H. injection H as H1 H2 H3. subst. split; [reflexivity|]. split; [auto|]. intros e He. apply Nat.eqb_eq in E0. destruct fm; [contradiction | discriminate]. }
+    cbv zeta. destruct (has_hash fm) eqn:Eh.
+    - destruct (negb (length fm <=? nlev)); [intro H; discriminate H|].
+      destruct (try_combos hashf padz bs pos true (map fe_idx fm) fm rec (combos (seq 0 nlev) (length fm)) buf jn 0 []) as [[[[ok b2] j2] e2] t2] eqn:E.
+      destruct ok; [|destruct e2; intro H; discriminate H].
+      intro H. injection H as H1 H2 H3. subst b2.
+      destruct (try_combos_accept _ _ _ _ _ _ _ _ _ _ _ _ _ _ E) as [A [B C]]. split; [exact A|]. split; [exact B|].
+      intros e He Ho Hu. apply (hash_matching_entries fm buf' (C eq_refl) e He Ho Hu).
+    - destruct (negb (length fm <? nlev)); [intro H; discriminate H|].
+      destruct (try_combos hashf padz bs pos false (map fe_idx fm) fm rec (combos (seq 0 nlev) (S (length fm))) buf jn 0 []) as [[[[ok b2] j2] e2] t2] eqn:E.
+      destruct ok; [|destruct e2; intro H; discriminate H].
+      intro H. injection H as H1 H2 H3. subst b2.
+      destruct (try_combos_accept _ _ _ _ _ _ _ _ _ _ _ _ _ _ E) as [A [B _]]. split; [exact A|]. split; [exact B|].
+      intros e He Ho Hu. exfalso. apply (no_hash_entries fm Eh e He Ho Hu).
+  Qed.
+
+  (* strategy 1: the entries handed to repair_step, the blocks fetched *)
+  Lemma s1_fold_spec nosearch fs0 : forall l fm0 b0,
+    (forall e, In e l -> fe_idx e < length b0) -> NoDup (map fe_idx l) ->
+    let r := fold_left (fun (acc : list fent * list bid) e =>
+                     if fe_bad e then
+                       match (if fe_updated_hash e then search_fetch hashf bs nosearch fs0 e else None) with
+                       | Some b => (fst acc, set_buf (snd acc) (fe_idx e) b)
+                       | None => (fst acc ++ [e], snd acc)
+                       end
+                     else acc) l (fm0, b0) in
+    length (snd r) = length b0
+    /\ (forall x, In x fm0 -> In x (fst r))
+    /\ (forall x, In x (fst r) -> In x fm0 \/ In x l)
+    /\ (forall e, In e l -> fe_bad e = true ->
+          In e (fst r) \/ (fe_updated_hash e = true /\ exists b, search_fetch hashf bs nosearch fs0 e = Some b /\ vnth (snd r) (fe_idx e) = b))
+    /\ (forall i, (forall e, In e l -> fe_idx e <> i) -> vnth (snd r) i = vnth b0 i).
+  Proof.
+    induction l as [|y t IH]; intros fm0 b0 Hidx Hnd; cbn [fold_left].
+    - cbn zeta. cbn [fst snd]. repeat split; auto. intros e [].
+    - cbn [map] in Hnd. apply NoDup_cons_iff in Hnd. destruct Hnd as [Hny Hnd].
+      assert (Hyt : forall e, In e t -> fe_idx e <> fe_idx y) by (intros e He X; apply Hny; rewrite <- X; apply in_map; exact He).
+      assert (Hidxt : forall b1 : list bid, length b1 = length b0 -> forall e, In e t -> fe_idx e < length b1) by (intros b1 E e He; rewrite E; apply Hidx; right; exact He).
+      destruct (fe_bad y) eqn:Eb.
+      + destruct (if fe_updated_hash y then search_fetch hashf bs nosearch fs0 y else None) as [b|] eqn:Ef; cbn [fst snd].
+        * destruct (IH fm0 (set_buf b0 (fe_idx y) b) (Hidxt _ (set_buf_length _ _ _)) Hnd) as [A [B [C [D E]]]]. cbn zeta in A, B, C, D, E. cbn zeta.
+          split; [rewrite A; apply set_buf_length|]. split; [exact B|]. split; [intros x Hx; destruct (C x Hx); auto; right; right; assumption|]. split.
+          -- intros e [He|He] Hb; [subst e | apply (D e He Hb)]. right.
+             destruct (fe_updated_hash y); [|discriminate Ef]. split; [reflexivity|]. exists b. split; [exact Ef|].
+             rewrite (E (fe_idx y) Hyt). rewrite vnth_set_buf by (apply Hidx; left; reflexivity). rewrite Nat.eqb_refl. reflexivity.
+          -- intros i Hi. rewrite (E i (fun e He => Hi e (or_intror He))).
+             destruct (Nat.lt_ge_cases i (length b0)) as [Hl|Hl].
+             ++ rewrite vnth_set_buf by exact Hl. assert (X : Nat.eqb i (fe_idx y) = false) by (apply Nat.eqb_neq; intro X; apply (Hi y (or_introl eq_refl)); auto). rewrite X. reflexivity.
+             ++ rewrite !vnth_out; [reflexivity | exact Hl | rewrite set_buf_length; exact Hl].
+        * destruct (IH (fm0 ++ [y]) b0 (Hidxt _ eq_refl) Hnd) as [A [B [C [D E]]]]. cbn zeta in A, B, C, D, E. cbn zeta.
+          split; [exact A|]. split; [intros x Hx; apply B; apply in_or_app; left; exact Hx|].
+          split; [intros x Hx; destruct (C x Hx) as [X|X]; [apply in_app_or in X; destruct X as [X|[X|[]]]; [left; exact X | subst x; right; left; reflexivity] | right; right; exact X]|].
+          split.
+          -- intros e [He|He] Hb; [subst e; left; apply B; apply in_or_app; right; left; reflexivity | apply (D e He Hb)].
+          -- intros i Hi. apply E. intros e He. apply Hi. right. exact He.
+      + destruct (IH fm0 b0 (Hidxt _ eq_refl) Hnd) as [A [B [C [D E]]]]. cbn zeta in A, B, C, D, E. cbn zeta.
+        split; [exact A|]. split; [exact B|]. split; [intros x Hx; destruct (C x Hx); auto; right; right; assumption|]. split.
+        * intros e [He|He] Hb; [subst e; rewrite Eb in Hb; discriminate Hb | apply (D e He Hb)].
+        * intros i Hi. apply E. intros e He. apply Hi. right. exact He.
+  Qed.
+
+  (* strategy 2: every bad BLK entry is handed to repair_step *)
+  Lemma s2_fold_fm : forall l fl fm b tr us x,
+    In x fm \/ (In x l /\ fe_state x = Some SBlk /\ fe_bad x = true) ->
+    In x (snd (fst (fst (fst (fold_left (fun (acc : list fent * list fent * list bid * bool * bool) e =>
+            let '(fl, fm, b, torec, unsync) := acc in
+            match fe_state e with
+            | Some SBlk =>
+                if fe_bad e then (fl ++ [e], fm ++ [e], b, true, unsync) else (fl ++ [e], fm, b, torec, unsync)
+            | _ =>
+                let e' := fe_set_ood e in
+                if fe_is SChg e && h_is_zero false (fe_hash e)
+                then (fl ++ [e'], fm, set_buf b (fe_idx e) 0%N, torec, true)
+                else (fl ++ [e'], fm ++ [e'], b, torec, true)
+            end) l (fl, fm, b, tr, us)))))).
+  Proof.
+    induction l as [|e t IH]; intros fl fm b tr us x H.
+    - cbn. destruct H as [H|[[] _]]. exact H.
+    - cbn [fold_left].
+      assert (Hother : forall fm', (forall y, In y fm -> In y fm') -> (fe_state e = Some SBlk -> fe_bad e = true -> In e fm') ->
+                       In x fm' \/ (In x t /\ fe_state x = Some SBlk /\ fe_bad x = true)).
+      { intros fm' Hsub Hhead. destruct H as [H|[[H|H] [H1 H2]]]; [left; apply Hsub; exact H | subst x; left; apply Hhead; assumption | right; auto]. }
+      destruct (fe_state e) as [[| |]|] eqn:Es.
+      + destruct (fe_bad e) eqn:Eb; apply IH; apply Hother.
+        * intros y Hy. apply in_or_app. left. exact Hy.
+        * intros _ _. apply in_or_app. right. left. reflexivity.
+        * auto.
+        * intros _ X. discriminate X.
+      + destruct (fe_is SChg e && h_is_zero false (fe_hash e)); apply IH; apply Hother.
+        * auto.
+        * intro X. discriminate X.
+        * intros y Hy. apply in_or_app. left. exact Hy.
+        * intro X. discriminate X.
+      + destruct (fe_is SChg e && h_is_zero false (fe_hash e)); apply IH; apply Hother.
+        * auto.
+        * intro X. discriminate X.
+        * intros y Hy. apply in_or_app. left. exact Hy.
+        * intro X. discriminate X.
+      + destruct (fe_is SChg e && h_is_zero false (fe_hash e)); apply IH; apply Hother.
+        * auto.
+        * intro X. discriminate X.
+        * intros y Hy. apply in_or_app. left. exact Hy.
+        * intro X. discriminate X.
+  Qed.
+
+  Lemma nodup_map_inj {A B} (f : A -> B) l x y : NoDup (map f l) -> In x l -> In y l -> f x = f y -> x = y.
+  Proof.
+    induction l as [|z t IH]; intros Hnd Hx Hy E; [contradiction|]. cbn [map] in Hnd. apply NoDup_cons_iff in Hnd. destruct Hnd as [Hn Hnd].
+    destruct Hx as [Hx|Hx], Hy as [Hy|Hy]; try congruence.
+    - subst z. exfalso. apply Hn. rewrite E. apply in_map. exact Hy.
+    - subst z. exfalso. apply Hn. rewrite <- E. apply in_map. exact Hx.
+    - apply IH; assumption.
+  Qed.
+
+  Theorem repair_ok_hash_verified pos nosearch fs0 failed rec buf jn failed' buf' jn' tags :
+    NoDup (map fe_idx failed) -> (forall e, In e failed -> fe_idx e < length buf) ->
+    repair hashf padz bs nlev false pos nosearch fs0 failed rec buf jn = (ROk, failed', buf', jn', tags) ->
+    forall e', In e' failed' -> fe_bad e' = true -> fe_ood e' = false -> fe_updated_hash e' = true ->
+      hash_passes e' (vnth buf' (fe_idx e')) = true.
+  Proof.
+    intros Hnd Hidx H. unfold repair in H. destruct failed as [|e0 ft] eqn:Ef.
+    { injection H as H _ _ _. subst failed'. intros e' []. }
+    rewrite <- Ef in *. clear Ef e0 ft.
+    pose proof (s1_fold_spec nosearch fs0 failed [] buf Hidx Hnd) as S1. cbn zeta in S1.
+    match type of H with context [fold_left ?g failed ([], buf)] => destruct (fold_left g failed ([], buf)) as [fm1 buf1] end.
+    cbn [fst snd] in S1. destruct S1 as [L1 [_ [Sub1 [Cov1 _]]]].
+    assert (Sub1' : forall x, In x fm1 -> In x failed) by (intros x Hx; destruct (Sub1 x Hx) as [[]|X]; exact X).
+    (* a fetched block passes the hash test *)
+    assert (Hfetch : forall e b, search_fetch hashf bs nosearch fs0 e = Some b -> hash_passes e b = true).
+    { intros e b Hs. destruct (search_fetch_hash hashf bs nosearch fs0 e b Hs) as [f [i [Ef Eh]]]. unfold hash_passes, FixModel.fe_len. rewrite Ef. exact Eh. }
+    destruct fm1 as [|x1 fmt] eqn:Efm1.
+    { injection H as H1 H2 _ _. subst failed' buf'. intros e' He' Hb Ho Hu.
+      destruct (Cov1 e' He' Hb) as [[]|[_ [b [Hs Hv]]]]. rewrite Hv. apply (Hfetch e' b Hs). }
+    rewrite <- Efm1 in *.
+    destruct (repair_step hashf padz bs nlev pos fm1 rec buf1 jn) as [[[r1 buf2] jn2] tags1] eqn:Er1.
+    assert (Hne : match fm1 with [] => true | _ => false end = false) by (rewrite Efm1; reflexivity).
+    destruct fm1 as [|y1 fy]; [discriminate Hne|]. clear Hne Efm1.
+    set (fm1 := y1 :: fy) in *.
+    (* strategy 2, when strategy 1 did not succeed *)
+    assert (S2 : r1 <> ROk -> forall e', In e' failed' -> fe_bad e' = true -> fe_ood e' = false -> fe_updated_hash e' = true ->
+                  hash_passes e' (vnth buf' (fe_idx e')) = true).
+    { intro Hr1.
+      assert (Hshape : exists err1,
+        (let step := fun (acc : list fent * list fent * list bid * bool * bool) e =>
+            let '(fl, fm, b, torec, unsync) := acc in
+            match fe_state e with
+            | Some SBlk => if fe_bad e then (fl ++ [e], fm ++ [e], b, true, unsync) else (fl ++ [e], fm, b, torec, unsync)
+            | _ => let e' := fe_set_ood e in
+                   if fe_is SChg e && h_is_zero false (fe_hash e) then (fl ++ [e'], fm, set_buf b (fe_idx e) 0%N, torec, true)
+                   else (fl ++ [e'], fm ++ [e'], b, torec, true)
+            end in
+          let '(failed2, fm2, buf3, torec, unsync) := fold_left step failed ([], [], buf2, false, false) in
+          if torec && unsync then
+            let '(r2, buf4, jn4, tags2) := repair_step hashf padz bs nlev pos fm2 rec buf3 jn2 in
+            match r2 with
+            | ROk =>
+                let t := flat_map (fun e => if fe_bad e && (fe_is SChg e || fe_is SRep e)
+                                            then [(K_HASH_UNKNOWN, [N.of_nat pos; N.of_nat (fe_idx e); 4%N])] else []) failed2 in
+                (ROk, failed2, buf4, jn4, tags1 ++ tags2 ++ t)
+            | _ =>
+              let err2 := match r2 with RErr n => n | _ => O end in
+              (match (err1 + err2)%nat with O => RNone | S k => RErr (S k) end, failed2, buf4, jn4, tags1 ++ tags2)
+            end
+          else (match err1 with O => RNone | S k => RErr (S k) end, failed2, buf3, jn2, tags1)) = (ROk, failed', buf', jn', tags)).
+      { destruct r1; [contradiction | exists n; exact H | exists 0; exact H]. }
+      destruct Hshape as [err1 H2]. cbv zeta in H2.
+      match type of H2 with context [fold_left ?g failed ([], [], buf2, false, false)] =>
+        pose proof (s2_fold failed [] [] buf2 false false) as E2; cbn [app] in E2;
+        pose proof (fun x Hx => s2_fold_fm failed [] [] buf2 false false x (or_intror Hx)) as M2;
+        destruct (fold_left g failed ([], [], buf2, false, false)) as [[[[failed2 fm2] buf3] torec] unsync] end.
+      cbn [fst snd] in E2, M2.
+      destruct (torec && unsync); [|destruct err1; discriminate H2].
+      destruct (repair_step hashf padz bs nlev pos fm2 rec buf3 jn2) as [[[r2 buf4] jn4] tags2] eqn:Er2.
+      destruct r2; [| destruct (err1 + n); discriminate H2 | destruct (err1 + 0); discriminate H2].
+      injection H2 as H21 H22 _ _. subst failed' buf'.
+      destruct (repair_step_accept pos fm2 rec buf3 jn2 buf4 jn4 tags2 Er2) as [_ [_ V]].
+      intros e' He' Hb Ho Hu. rewrite E2 in He'. apply in_map_iff in He'. destruct He' as [e [Ee He]]. subst e'.
+      unfold s2mark in *. destruct (fe_state e) as [[| |]|] eqn:Es; try (cbn in Ho; discriminate Ho).
+      apply blockcmp_hash. apply (V e); [apply (M2 e); auto | exact Ho | exact Hu]. }
+    destruct r1; [|apply S2; discriminate | apply S2; discriminate]. clear S2.
+    injection H as H1 H2 _ _. subst failed' buf'.
+    destruct (repair_step_accept pos fm1 rec buf1 jn buf2 jn2 tags1 Er1) as [_ [Out V]].
+    intros e' He' Hb Ho Hu. rewrite map_map in He'. apply in_map_iff in He'. destruct He' as [e [Ee He]]. subst e'.
+    destruct (chg_heuristic_fields hashf padz bs pos buf2 e) as [F1 [F2 [F3 [F4 [F5 F6]]]]]. cbn zeta in F1, F2, F3, F4, F5, F6.
+    set (e' := fst (chg_heuristic hashf padz bs false pos buf2 e)) in *.
+    assert (Hu0 : fe_updated_hash e = true) by (unfold fe_updated_hash in *; rewrite <- F3; exact Hu).
+    assert (Hp : hash_passes e' (vnth buf2 (fe_idx e')) = hash_passes e (vnth buf2 (fe_idx e))) by (unfold hash_passes, FixModel.fe_len; rewrite F2, F4, F5; reflexivity).
+    rewrite Hp. rewrite F1 in Hb.
+    destruct (Cov1 e He Hb) as [Hin|[_ [b [Hs Hv]]]].
+    - apply blockcmp_hash. apply (V e Hin (F6 Ho) Hu0).
+    - destruct (existsb (fun x => Nat.eqb (fe_idx x) (fe_idx e)) fm1) eqn:Ex.
+      + apply existsb_exists in Ex. destruct Ex as [x [Hx Exi]]. apply Nat.eqb_eq in Exi.
+        assert (x = e) by (apply (nodup_map_inj fe_idx failed x e Hnd (Sub1' x Hx) He Exi)). subst x.
+        apply blockcmp_hash. apply (V e Hx (F6 Ho) Hu0).
+      + rewrite Out; [rewrite Hv; apply (Hfetch e b Hs)|].
+        intro X. apply in_map_iff in X. destruct X as [x [Exi Hx]].
+        assert (Y : existsb (fun x => Nat.eqb (fe_idx x) (fe_idx e)) fm1 = true) by (apply existsb_exists; exists x; split; [exact Hx | apply Nat.eqb_eq; exact Exi]).
+        congruence.
+  Qed.
+End RepairVerified.
+
+(* ---------------------------------------------------------------------------------------------------------- *)
 (* the stripe step on an arbitrary stripe                                                                       *)
 (* ---------------------------------------------------------------------------------------------------------- *)
 Section Pending.
@@ -193,21 +446,30 @@ Section Pending.
       open_step bs newino now o pos j f (da_st a) = Some s4
       /\ data_step o c pos a j = mkDA (da_buf a ++ [x]) (da_failed a ++ fe) v' true s'
       /\ (fe = [] \/ exists bad, fe = [ent j f idx b bad])
+      (* no bad entry: the block was read and, unless it is a CHG block, it hashes to the recorded hash *)
+      /\ ((forall e, In e fe -> fe_bad e = false) ->
+          fb_state b = SChg \/ exists data, read_block bs s4 j f idx = Some data /\ hash_ok hashf bs f idx b data = true)
       /\ r_fs s' = r_fs s4 /\ r_flags s' = r_flags s4 /\ r_par s' = r_par s4 /\ r_unrec s' = r_unrec s4.
   Proof.
     intros Hp Hfix Hd Hs Hj.
     destruct (open_fix_gen o pos j f (da_st a) Hp Hfix Hj) as [s4 [Eo _]].
     exists s4. unfold FixModel.data_step. rewrite Hd, Hs, (pl_audit nlev o Hp). cbn [andb]. rewrite Eo.
+    assert (Hbad : forall l : list fent, (exists e, In e l /\ fe_bad e = true) -> (forall e, In e l -> fe_bad e = false) -> False).
+    { intros l [e [He Hb]] H. rewrite (H e He) in Hb. discriminate Hb. }
     destruct (read_block bs s4 j f idx) as [data|].
     - destruct (fb_state b) eqn:Est.
-      + destruct (hval_eqb (hashf data (block_len bs (cf_size f) idx)) (fb_hash b)); cbn [bstate_eqb].
-        * do 4 eexists. split; [reflexivity|]. split; [reflexivity|]. split; [left; reflexivity | auto].
-        * do 4 eexists. split; [reflexivity|]. split; [reflexivity|]. split; [right; exists true; unfold ent; rewrite Est; reflexivity | auto].
-      + do 4 eexists. split; [reflexivity|]. split; [reflexivity|]. split; [right; exists false; unfold ent; rewrite Est; reflexivity | auto].
-      + destruct (hval_eqb (hashf data (block_len bs (cf_size f) idx)) (fb_hash b)); cbn [bstate_eqb].
-        * do 4 eexists. split; [reflexivity|]. split; [reflexivity|]. split; [right; exists false; unfold ent; rewrite Est; reflexivity | auto].
-        * do 4 eexists. split; [reflexivity|]. split; [reflexivity|]. split; [right; exists true; unfold ent; rewrite Est; reflexivity | auto].
-    - do 4 eexists. split; [reflexivity|]. split; [reflexivity|]. split; [right; exists true; reflexivity | auto].
+      + destruct (hval_eqb (hashf data (block_len bs (cf_size f) idx)) (fb_hash b)) eqn:Eh; cbn [bstate_eqb].
+        * do 4 eexists. split; [reflexivity|]. split; [reflexivity|]. split; [left; reflexivity|]. split; [intros _; right; exists data; split; [reflexivity | exact Eh] | auto].
+        * do 4 eexists. split; [reflexivity|]. split; [reflexivity|]. split; [right; exists true; unfold ent; rewrite Est; reflexivity|].
+          split; [intro H; exfalso; apply (Hbad _ ltac:(eexists; split; [left; reflexivity | reflexivity]) H) | auto].
+      + do 4 eexists. split; [reflexivity|]. split; [reflexivity|]. split; [right; exists false; unfold ent; rewrite Est; reflexivity|]. split; [intros _; left; reflexivity | auto].
+      + destruct (hval_eqb (hashf data (block_len bs (cf_size f) idx)) (fb_hash b)) eqn:Eh; cbn [bstate_eqb].
+        * do 4 eexists. split; [reflexivity|]. split; [reflexivity|]. split; [right; exists false; unfold ent; rewrite Est; reflexivity|].
+          split; [intros _; right; exists data; split; [reflexivity | exact Eh] | auto].
+        * do 4 eexists. split; [reflexivity|]. split; [reflexivity|]. split; [right; exists true; unfold ent; rewrite Est; reflexivity|].
+          split; [intro H; exfalso; apply (Hbad _ ltac:(eexists; split; [left; reflexivity | reflexivity]) H) | auto].
+    - do 4 eexists. split; [reflexivity|]. split; [reflexivity|]. split; [right; exists true; reflexivity|].
+      split; [intro H; exfalso; apply (Hbad _ ltac:(eexists; split; [left; reflexivity | reflexivity]) H) | auto].
   Qed.
 
   (* ---- the loop over the disks, any stripe ---------------------------------------------------------------------------- *)
@@ -234,6 +496,7 @@ Section Pending.
 
     Record dinvP (k : nat) (a : dacc) : Prop := {
       dp_len : length (r_fs (da_st a)) = length (r_fs s);
+      dp_buflen : length (da_buf a) = k;
       dp_par : r_par (da_st a) = r_par s;
       dp_unrec : r_unrec (da_st a) = r_unrec s;
       dp_dam : forall k', fl_damaged (get_fl (r_flags (da_st a)) k') = fl_damaged (get_fl (r_flags s) k');
@@ -242,6 +505,10 @@ Section Pending.
       dp_other : forall k', (forall f idx b, slot_of c pos (fst k') = SFile f idx b -> cf_name f <> snd k') ->
                             get_fl (r_flags (da_st a)) k' = get_fl (r_flags s) k';
       dp_ent : forall e, In e (da_failed a) -> fe_idx e < k /\ ent_ok e;
+      (* a block that is not CHG and has no bad entry was read from the opened file and hashes to the recorded hash *)
+      dp_good : forall j f idx b, slot_of c pos j = SFile f idx b -> j < k -> fb_state b <> SChg ->
+                  (forall e, In e (da_failed a) -> fe_idx e = j -> fe_bad e = false) ->
+                  hash_ok hashf bs f idx b (nth idx (ff_blocks (opened_file s j f)) 0%N) = true;
       dp_nd : NoDup (map fe_idx (da_failed a))
     }.
 
@@ -270,6 +537,7 @@ Section Pending.
                  dinvP (S k) (mkDA (da_buf a ++ [x]) (da_failed a ++ fe) v' u' st)).
       { intros x fe v' u' st E1 E2 E3 E4 Hno Hfe. destruct I. constructor; cbn [da_buf da_failed da_valid da_used da_st].
         - rewrite E1. exact dp_len0.
+        - rewrite app_length, dp_buflen0. cbn. lia.
         - rewrite E3. exact dp_par0.
         - rewrite E4. exact dp_unrec0.
         - intro k'. rewrite E2. apply dp_dam0.
@@ -281,6 +549,8 @@ Section Pending.
         - intros e He. apply in_app_or in He. destruct He as [He|He].
           + destruct (dp_ent0 e He) as [X Y]. split; [lia | exact Y].
           + destruct Hfe as [Hfe|[h Hfe]]; subst fe; [contradiction|]. destruct He as [He|[]]. subst e. cbn. split; [lia|]. split; [reflexivity | left; auto].
+        - intros j f idx b Hs Hj Hnc Hall. destruct (Nat.eq_dec j k) as [E|E]; [subst j; exfalso; apply (Hno f idx b Hs)|].
+          apply (dp_good0 j f idx b Hs ltac:(lia) Hnc). intros e He. apply Hall. apply in_or_app. left. exact He.
         - rewrite map_app. destruct Hfe as [Hfe|[h Hfe]]; subst fe; cbn [map]; [rewrite app_nil_r; exact dp_nd0 | apply nodup_snoc; assumption]. }
       destruct (nth k (c_disks c) None) as [d|] eqn:Ed.
       2: { unfold FixModel.data_step. rewrite Ed. rewrite <- (app_nil_r (da_failed a)). apply Hpush; auto. intros f idx b X. rewrite Hso in X. discriminate X. }
@@ -288,13 +558,14 @@ Section Pending.
       - unfold FixModel.data_step. rewrite Ed, Esa. rewrite <- (app_nil_r (da_failed a)). apply Hpush; auto. intros f idx b X. rewrite Hso in X. discriminate X.
       - (* a file block *)
         assert (Hkl : k < length (r_fs (da_st a))) by (rewrite (dp_len k a I), Hlenfs; exact Hk).
-        destruct (data_step_sfile o c pos a k d f idx b Hplain Hfix Ed Esa Hkl) as [s4 [s' [x [fe [v' [Eo [Eds [Hfe [E1 [E2 [E3 E4]]]]]]]]]]].
+        destruct (data_step_sfile o c pos a k d f idx b Hplain Hfix Ed Esa Hkl) as [s4 [s' [x [fe [v' [Eo [Eds [Hfe [Hgd [E1 [E2 [E3 E4]]]]]]]]]]]].
         destruct (open_fix_gen o pos k f (da_st a) Hplain Hfix Hkl) as [s4' [Eo' [O1 [O2 [[Ou Od] [O3 [O4 O5]]]]]]].
         rewrite Eo in Eo'. injection Eo' as Eo'. subst s4'.
         assert (Eof : opened_file (da_st a) k f = opened_file s k f).
         { unfold opened_file, cut_cond. rewrite (dp_fs k a I k (cf_name f)), Nat.ltb_irrefl. rewrite (dp_hi k a I (k, cf_name f)) by (cbn; lia). reflexivity. }
         rewrite Eds. destruct I. constructor; cbn [da_buf da_failed da_valid da_used da_st].
         + rewrite E1, O2. exact dp_len0.
+        + rewrite app_length, dp_buflen0. cbn. lia.
         + rewrite E3, O1. exact dp_par0.
         + rewrite E4, Ou. exact dp_unrec0.
         + intro k'. rewrite E2, Od. apply dp_dam0.
@@ -309,6 +580,14 @@ Section Pending.
           * destruct (dp_ent0 e He) as [X Y]. split; [lia | exact Y].
           * destruct Hfe as [Hfe|[bad Hfe]]; subst fe; [contradiction|]. destruct He as [He|[]]. subst e. cbn [fe_idx ent]. split; [lia|].
             split; [reflexivity|]. right. exists f, idx, b. split; [exact Hso | reflexivity].
+        + intros j f0 idx0 b0 Hs0 Hj Hnc Hall. destruct (Nat.eq_dec j k) as [E|E].
+          * subst j. rewrite Hso in Hs0. injection Hs0 as X1 X2 X3. subst f0 idx0 b0.
+            destruct Hgd as [Hc|[data [Hr Hh]]]; [|contradiction|].
+            { intros e He. apply Hall; [apply in_or_app; right; exact He|].
+              destruct Hfe as [Hfe|[bad Hfe]]; subst fe; [contradiction|]. destruct He as [He|[]]. subst e. reflexivity. }
+            destruct (read_block_some bs s4 k f idx data Hr) as [g [Hg [Hy _]]]. rewrite O3 in Hg. injection Hg as Hg. subst g.
+            rewrite <- Eof, <- Hy. exact Hh.
+          * apply (dp_good0 j f0 idx0 b0 Hs0 ltac:(lia) Hnc). intros e He. apply Hall. apply in_or_app. left. exact He.
         + rewrite map_app. destruct Hfe as [Hfe|[bad Hfe]]; subst fe; cbn [map]; [rewrite app_nil_r; exact dp_nd0 | apply nodup_snoc; assumption].
       - unfold FixModel.data_step. rewrite Ed, Esa. apply Hpush; auto; [intros f idx b X; rewrite Hso in X; discriminate X | right; exists h; reflexivity].
     Qed.
@@ -566,7 +845,8 @@ Section Pending.
                 /\ (idx < nblocks bs (cf_size f) ->
                       fblk (r_fs s') j (cf_name f) idx = fblk (r_fs s) j (cf_name f) idx
                       \/ exists x, fblk (r_fs s') j (cf_name f) idx = wbv f idx x
-                                   /\ (fb_state b = SChg -> dam s' j f = true \/ NotOld j f idx b x))))
+                                   /\ (fb_state b = SChg -> dam s' j f = true \/ NotOld j f idx b x)
+                                   /\ (fb_state b <> SChg -> dam s' j f = true \/ hash_ok hashf bs f idx b x = true))))
       (* the unrecoverable count never decreases; when it does not move no file is newly flagged DAMAGED *)
       /\ (r_unrec s <= r_unrec s' /\ (r_unrec s' = r_unrec s -> forall k, fl_damaged (get_fl (r_flags s') k) = fl_damaged (get_fl (r_flags s) k)))
       (* frames: the parity outside the stripe, the OPENED flag of the other files, the size of the files of the stripe *)
@@ -580,7 +860,7 @@ Section Pending.
     Proof.
       pose proof (data_phase_P o c pos s Hplain Hfix Hlenfs) as DP.
       set (a := data_phase o c pos s) in *.
-      destruct DP as [Dlen Dpar Dunrec Ddam Dfs Dhi Doth Dent Dnd].
+      destruct DP as [Dlen Dbl Dpar Dunrec Ddam Dfs Dhi Doth Dent Dnd].
       pose proof (parity_phase_spec nlev o pos (da_st a) (pl_popen nlev o Hplain)) as Epp.
       set (rec := map (prow (r_par (da_st a)) pos) (seq 0 nlev)) in *.
       destruct (repair hashf padz bs nlev false pos (co_nosearch o) (search_view fs0 (r_fs (da_st a))) (da_failed a) rec (da_buf a) (r_jn (da_st a)))
@@ -611,7 +891,8 @@ Section Pending.
               exists g7, fs_find (r_fs s7) j (cf_name f) = Some g7
                 /\ (forall i, i <> idx -> nth i (ff_blocks g7) 0%N = nth i (ff_blocks (opened_file s j f)) 0%N)
                 /\ (nth idx (ff_blocks g7) 0%N = nth idx (ff_blocks (opened_file s j f)) 0%N
-                    \/ exists x, nth idx (ff_blocks g7) 0%N = wbv f idx x /\ (fb_state b = SChg -> dam s7 j f = true \/ NotOld j f idx b x))
+                    \/ exists x, nth idx (ff_blocks g7) 0%N = wbv f idx x /\ (fb_state b = SChg -> dam s7 j f = true \/ NotOld j f idx b x)
+                                 /\ (fb_state b <> SChg -> dam s7 j f = true \/ hash_ok hashf bs f idx b x = true))
                 /\ ((ff_size (opened_file s j f) <= ff_size g7)%N
                     /\ (ff_size g7 <= N.max (ff_size (opened_file s j f)) (N.of_nat idx * bs + block_len bs (cf_size f) idx))%N))
         /\ (r_unrec s <= r_unrec s7 /\ (r_unrec s7 = r_unrec s -> forall k, fl_damaged (get_fl (r_flags s7) k) = fl_damaged (get_fl (r_flags s) k)))
@@ -635,7 +916,8 @@ Section Pending.
                      exists g7, fs_find (r_fs s7) j (cf_name f) = Some g7
                        /\ (forall i, i <> idx -> nth i (ff_blocks g7) 0%N = nth i (ff_blocks (opened_file s j f)) 0%N)
                        /\ (nth idx (ff_blocks g7) 0%N = nth idx (ff_blocks (opened_file s j f)) 0%N
-                           \/ exists x, nth idx (ff_blocks g7) 0%N = wbv f idx x /\ (fb_state b = SChg -> dam s7 j f = true \/ NotOld j f idx b x))
+                           \/ exists x, nth idx (ff_blocks g7) 0%N = wbv f idx x /\ (fb_state b = SChg -> dam s7 j f = true \/ NotOld j f idx b x)
+                                 /\ (fb_state b <> SChg -> dam s7 j f = true \/ hash_ok hashf bs f idx b x = true))
                        /\ ((ff_size (opened_file s j f) <= ff_size g7)%N
                            /\ (ff_size g7 <= N.max (ff_size (opened_file s j f)) (N.of_nat idx * bs + block_len bs (cf_size f) idx))%N))).
           { intros [X1 X2]. split; [exact X1|]. split; [exact X2|]. split.
@@ -652,11 +934,16 @@ Section Pending.
               rewrite <- Hi' in Hg1. destruct (K4 e' f idx _ He' Hb' Ef1 Hg1) as [Kw Ko]. rewrite Hi' in Kw, Ko.
               destruct (write_block_blocks (opened_file s (fe_idx e') f) f idx (vnth buf j)) as [Wb1 Wb2]. rewrite Hi' in Wb1, Wb2.
               pose proof (write_block_size (opened_file s (fe_idx e') f) f idx (vnth buf j)) as Wsz. rewrite Hi' in Wsz.
-              eexists. split; [exact Kw|]. split; [exact Wb2|]. split; [|exact Wsz]. right. exists (vnth buf j). split; [exact Wb1|].
-              intro Hchg. destruct (fe_ood e') eqn:Eo; [left; apply Ko; reflexivity | right].
-              intros ob Hob. rewrite <- Hi'.
-              apply (repair_never_accepts_old hashf padz bs nlev pos _ _ _ _ _ _ _ _ _ _ Erep e' He' Hb'); [unfold fe_is; rewrite Est1, Hchg; reflexivity | exact Eo |].
-              unfold past_hash_inv, FixModel.fe_len in *. rewrite Eh1, Ef1. cbn [fe_hash fe_file ent] in Hob. exact Hob.
+              eexists. split; [exact Kw|]. split; [exact Wb2|]. split; [|exact Wsz]. right. exists (vnth buf j). split; [exact Wb1|]. split.
+              { intro Hchg. destruct (fe_ood e') eqn:Eo; [left; apply Ko; reflexivity | right].
+                intros ob Hob. rewrite <- Hi'.
+                apply (repair_never_accepts_old hashf padz bs nlev pos _ _ _ _ _ _ _ _ _ _ Erep e' He' Hb'); [unfold fe_is; rewrite Est1, Hchg; reflexivity | exact Eo |].
+                unfold past_hash_inv, FixModel.fe_len in *. rewrite Eh1, Ef1. cbn [fe_hash fe_file ent] in Hob. exact Hob. }
+              intro Hnc. destruct (fe_ood e') eqn:Eo; [left; apply Ko; reflexivity | right].
+              assert (Hup : fe_updated_hash e' = true) by (unfold fe_updated_hash; rewrite Est1; destruct (fb_state b); [reflexivity | exfalso; apply Hnc; reflexivity | reflexivity]).
+              assert (Hidxlt : forall e, In e (da_failed a) -> fe_idx e < length (da_buf a)) by (intros e He; rewrite Dbl; apply (Dent e He)).
+              pose proof (repair_ok_hash_verified hashf padz bs nlev pos _ _ _ _ _ _ _ _ _ _ Dnd Hidxlt Erep e' He' Hb' Eo Hup) as Hv.
+              unfold hash_passes, FixModel.fe_len in Hv. rewrite Eh1, Ef1, Hi' in Hv. exact Hv.
             * exists (opened_file s j f). split; [|split; [reflexivity | split; [left; reflexivity | split; lia]]].
               rewrite K3; [exact Hg1|]. intros e' f0 i0 He' Hb' _ X. injection X as X1 _.
               pose proof (find_none _ _ Efind e' He') as Y. cbn beta in Y. rewrite Hb', <- X1, Nat.eqb_refl in Y. discriminate Y.
@@ -707,7 +994,9 @@ Section Pending.
         unfold fblk at 1 3 5. rewrite Hg, Hb. split.
         + intros i Hi Hin. rewrite (G2 i Hi). apply opened_file_blk. exact Hin.
         + intro Hin. destruct G3 as [G3|[x [G3 G4]]]; [left; rewrite G3; apply opened_file_blk; exact Hin | right].
-          exists x. split; [exact G3|]. intro Hc. destruct (G4 Hc) as [Y|Y]; [left; rewrite Yd; exact Y | right; exact Y].
+          destruct G4 as [G4a G4b]. exists x. split; [exact G3|]. split.
+          * intro Hc. destruct (G4a Hc) as [Y|Y]; [left; rewrite Yd; exact Y | right; exact Y].
+          * intro Hc. destruct (G4b Hc) as [Y|Y]; [left; rewrite Yd; exact Y | right; exact Y].
     Qed.
 
     Theorem fix_step_pending :
@@ -720,7 +1009,8 @@ Section Pending.
                 /\ (idx < nblocks bs (cf_size f) ->
                       fblk (r_fs s') j (cf_name f) idx = fblk (r_fs s) j (cf_name f) idx
                       \/ exists x, fblk (r_fs s') j (cf_name f) idx = wbv f idx x
-                                   /\ (fb_state b = SChg -> dam s' j f = true \/ NotOld j f idx b x))))
+                                   /\ (fb_state b = SChg -> dam s' j f = true \/ NotOld j f idx b x)
+                                   /\ (fb_state b <> SChg -> dam s' j f = true \/ hash_ok hashf bs f idx b x = true))))
       /\ (r_unrec s <= r_unrec s' /\ (r_unrec s' = r_unrec s -> forall k, fl_damaged (get_fl (r_flags s') k) = fl_damaged (get_fl (r_flags s) k))).
     Proof. destruct fix_step_pending_full as [A [B [C [D _]]]]. cbn zeta. auto. Qed.
   End StepP.
@@ -763,7 +1053,8 @@ Section Pending.
       rp_done : forall p j f i b, slot_of c p j = SFile f i b -> p < k ->
                   dam s j f = true
                   \/ fblk (r_fs s) j (cf_name f) i = fblk fs0 j (cf_name f) i
-                  \/ exists x, fblk (r_fs s) j (cf_name f) i = wbv f i x /\ (fb_state b = SChg -> NotOld j f i b x);
+                  \/ exists x, fblk (r_fs s) j (cf_name f) i = wbv f i x /\ (fb_state b = SChg -> NotOld j f i b x)
+                               /\ (fb_state b <> SChg -> hash_ok hashf bs f i b x = true);
       (* nothing counted unrecoverable: no file flagged DAMAGED *)
       rp_clean : r_unrec s = 0 -> forall key, fl_damaged (get_fl (r_flags s) key) = false
     }.
@@ -813,12 +1104,12 @@ Section Pending.
       - intros p j f i b Hs Hp. destruct (Nat.eq_dec p k) as [E|E].
         + subst p. destruct (g_wf bs c bm Hgeom k j f i b Hs) as [Hl Hw]. pose proof (idx_lt_nblocks bs (cf_size f) i Hl Hw) as Hin.
           destruct (K3 j f i b Hs) as [[_ [Kd' _]]|[_ Kw]]; [left; exact Kd'|].
-          destruct (Kw Hin) as [X|[x [X1 X2]]].
+          destruct (Kw Hin) as [X|[x [X1 [X2 X3]]]].
           * right. left. rewrite X. apply (rp_later k s I k j f i b Hs (le_n k)).
           * destruct (fb_state b) eqn:Est.
-            -- right. right. exists x. split; [exact X1 | intro Y; discriminate Y].
-            -- destruct (X2 eq_refl) as [Y|Y]; [left; exact Y | right; right; exists x; auto].
-            -- right. right. exists x. split; [exact X1 | intro Y; discriminate Y].
+            -- destruct (X3 ltac:(discriminate)) as [Y|Y]; [left; exact Y | right; right; exists x; split; [exact X1 | split; [intro Z; discriminate Z | intros _; exact Y]]].
+            -- destruct (X2 eq_refl) as [Y|Y]; [left; exact Y | right; right; exists x; split; [exact X1 | split; [intros _; exact Y | intro Z; exfalso; apply Z; reflexivity]]].
+            -- destruct (X3 ltac:(discriminate)) as [Y|Y]; [left; exact Y | right; right; exists x; split; [exact X1 | split; [intro Z; discriminate Z | intros _; exact Y]]].
         + destruct (rp_done k s I p j f i b Hs ltac:(lia)) as [X|X]; [left; apply Kd; exact X|].
           destruct (Hfr p j f i b Hs E) as [Y|[Y _]]; [|left; exact Y]. right. rewrite Y. exact X.
       - intros Hu key. assert (Hu0 : r_unrec s = 0) by lia. rewrite (K4b ltac:(lia) key). apply (rp_clean k s I Hu0).
@@ -893,7 +1184,8 @@ Section Pending.
       /\ forall p j f i b, slot_of c p j = SFile f i b ->
            dam (out_st out) j f = true
            \/ fblk (r_fs (out_st out)) j (cf_name f) i = fblk fs0 j (cf_name f) i
-           \/ exists x, fblk (r_fs (out_st out)) j (cf_name f) i = wbv f i x /\ (fb_state b = SChg -> NotOld j f i b x).
+           \/ exists x, fblk (r_fs (out_st out)) j (cf_name f) i = wbv f i x /\ (fb_state b = SChg -> NotOld j f i b x)
+                        /\ (fb_state b <> SChg -> hash_ok hashf bs f i b x = true).
     Proof.
       cbn zeta. destruct fix_run_rinvP as [I Ef]. cbn zeta in I, Ef.
       assert (Hst : out_fail (check_run hashf padz truncf bs nlev false newino now o c par fs0 objs (seq 0 bm)) = true
@@ -917,7 +1209,7 @@ Section Pending.
                      /\ forall l v, nth p (nth l par []) PNone = PEnc v -> x <> vnth v j.
     Proof.
       intro PHI. cbn zeta. intros p j f i b Hs Hc. destruct fix_run_chg_pending as [_ [_ H]]. cbn zeta in H.
-      destruct (H p j f i b Hs) as [X|[X|[x [X1 X2]]]]; [left; exact X | right; left; exact X | right; right].
+      destruct (H p j f i b Hs) as [X|[X|[x [X1 [X2 _]]]]]; [left; exact X | right; left; exact X | right; right].
       exists x. split; [exact X1|]. intros l v Hl. apply (X2 Hc).
       apply (PHI p j f i b ltac:(rewrite Hbm; apply (g_bm bs c bm Hgeom p j f i b Hs)) Hs Hc l v Hl).
     Qed.
@@ -1200,7 +1492,8 @@ Section StatementsP.
     /\ forall p j f i b, slot_of c p j = SFile f i b ->
          fl_damaged (get_fl (r_flags (out_st out)) (j, cf_name f)) = true
          \/ fblk (r_fs (out_st out)) j (cf_name f) i = fblk fs j (cf_name f) i
-         \/ exists x, fblk (r_fs (out_st out)) j (cf_name f) i = wbv padz truncf bs f i x /\ (fb_state b = SChg -> NotOld hashf padz bs j f i b x).
+         \/ exists x, fblk (r_fs (out_st out)) j (cf_name f) i = wbv padz truncf bs f i x /\ (fb_state b = SChg -> NotOld hashf padz bs j f i b x)
+                      /\ (fb_state b <> SChg -> hash_ok hashf bs f i b x = true).
   Proof.
     intros Hp Hf Hg Hbm Hl Hpl [O1 _].
     exact (fix_run_chg_pending hashf padz truncf bs nlev newino now o c bm fs par Hp Hf Hg Hl Hpl objs O1 Hbm).
